@@ -93,6 +93,8 @@ type loopInfo struct {
 	headerState *State
 	phiTerms    map[*ssa.Phi]TV
 	decAtHead   []TV
+	frameArrs   []string
+	frameAllowed map[string][]Term
 }
 
 func (v *FV) note(format string, a ...interface{}) {
@@ -117,7 +119,7 @@ func (v *FV) val(fr *Frame, x ssa.Value) TV {
 	case *ssa.Global:
 		name := "glob_" + mangle(shortPkg(x.Pkg.Pkg.Path())+"_"+x.Name())
 		v.pre("glob "+name, fmt.Sprintf("(declare-const %s Int)", name))
-		v.pre("globpos "+name, fmt.Sprintf("(assert (> %s 0))", name))
+		v.pre("globpos "+name, fmt.Sprintf("(assert (and (> %s 0) (<= %s N0!)))", name, name))
 		return TV{T: name, Ty: x.Type(), Sort: "Int"}
 	case *ssa.Function:
 		name := "fn_" + mangle(fnKey(x))
@@ -677,6 +679,36 @@ func (v *FV) loopHeader(fr *Frame, li *loopInfo, st *State) *State {
 	}
 	// havoc
 	mod := v.modifiedIn(fr, li.body)
+	var frameLocs []string
+	hasFrame := false
+	if fr.con != nil && fr.con.LoopFrame != nil {
+		frameLocs, hasFrame = fr.con.LoopFrame[li.ordinal]
+	}
+	var frameArrs []string
+	var frameAllowed map[string][]Term
+	if hasFrame {
+		if mod == nil {
+			for a := range v.arrays {
+				frameArrs = append(frameArrs, a)
+			}
+		} else {
+			for a := range mod {
+				frameArrs = append(frameArrs, a)
+			}
+		}
+		sort.Strings(frameArrs)
+		vars := map[string]TV{}
+		for k, x := range fr.params {
+			vars[k] = x
+		}
+		var pkg *types.Package
+		if fr.fn.Pkg != nil {
+			pkg = fr.fn.Pkg.Pkg
+		}
+		frameAllowed = v.allowedLocs(fr, st, frameLocs, fr.con, vars, pkg)
+		v.oblige("inv.entry", fmt.Sprintf("L%d.frame", li.ordinal), pos, "loop frame: only "+strings.Join(frameLocs, ", ")+" changed since entry", st.reach, v.loopFrameTerm(fr, st, frameArrs, frameAllowed))
+	}
+	li.frameArrs, li.frameAllowed = frameArrs, frameAllowed
 	ns := st.clone()
 	e := v.newEpoch(2)
 	e.parent = st.snap.clone()
@@ -716,6 +748,9 @@ func (v *FV) loopHeader(fr *Frame, li *loopInfo, st *State) *State {
 			continue
 		}
 		v.assume(ns.reach, t)
+	}
+	if hasFrame {
+		v.assume(ns.reach, v.loopFrameTerm(fr, ns, frameArrs, frameAllowed))
 	}
 	li.decAtHead = nil
 	for _, c := range decs {
@@ -788,6 +823,9 @@ func (v *FV) loopBackEdge(fr *Frame, li *loopInfo, from *ssa.BasicBlock, st *Sta
 			lbl = fmt.Sprintf("L%d.%d", li.ordinal, i+1)
 		}
 		v.oblige("inv.step", lbl, pos, c.Text, cond, t)
+	}
+	if li.frameArrs != nil {
+		v.oblige("inv.step", fmt.Sprintf("L%d.frame", li.ordinal), pos, "loop frame preserved", cond, v.loopFrameTerm(fr, bs, li.frameArrs, li.frameAllowed))
 	}
 	for i, c := range decs {
 		if i >= len(li.decAtHead) {
